@@ -13,7 +13,7 @@ CONSTANTS MaxMsgs, Mode          \* Mode \in {"recipient", "identity"}
 
 RecipMsgs == {"rs_ok", "rs_ok2", "rs_idx1", "rs_neg", "rs_nan", "rs_short", "labels0", "labels_ab", "labels_ba"}
 IdentMsgs == {"fk_ok", "fk_idx1", "fk_neg", "fk_nan", "fk_args0", "fk_args2"}
-Common == {"error", "done", "msg", "req_secret", "req_public", "confirm1", "confirm2", "confirm0", "confirm_bad64",
+Common == {"error", "done", "msg", "req_secret", "req_public", "confirm1", "confirm2", "confirm0", "confirm3", "confirm_bad64",
            "unknown", "garbage", "trunc", "eof"}
 Alphabet == Common \cup (IF Mode = "recipient" THEN RecipMsgs ELSE IdentMsgs)
 \* which callbacks the application provides, and how they behave
@@ -37,7 +37,7 @@ Recv(m) ==
   /\ script' = Append(script, m) /\ used' = used \cup Uses(m) /\ UNCHANGED ui
   /\ CASE m \in {"rs_ok", "rs_ok2"} -> /\ stanzas' = stanzas + 1 /\ Reply("ok") /\ UNCHANGED <<labels, fk, result>>
        \* only file index 0 is accepted; too few arguments, a non-numeric or another index end the call with an error
-       [] m \in {"rs_idx1", "rs_neg", "rs_nan", "rs_short", "fk_idx1", "fk_neg", "fk_nan", "fk_args0", "fk_args2", "confirm0"} -> Abort("err_malformed")
+       [] m \in {"rs_idx1", "rs_neg", "rs_nan", "rs_short", "fk_idx1", "fk_neg", "fk_nan", "fk_args0", "fk_args2", "confirm0", "confirm3"} -> Abort("err_malformed")
        [] m \in {"labels0", "labels_ab", "labels_ba"} ->
              IF labels # "none" THEN Abort("err_replabels")                         \* a repeated labels message is an error
              ELSE /\ labels' = m /\ Reply("ok") /\ UNCHANGED <<stanzas, fk, result>>
